@@ -1088,6 +1088,17 @@ def _matchpy(ctx, model):
                f"{n.name} <-> {opname}: fields {fwd}" if not problems else
                "; ".join(problems), {"to": fwd, "from": back})
     ctx.floor("matchpy to/from pairs", pairs, 20)
+    # the converters are reused across many short-lived expressions (one per
+    # firing of a replacement rule): if one of them memoizes, its key must hold
+    # the expression itself (C05's key rule), never its identity
+    from .c05 import _cache_key
+    cm = model.cls("pymbolic.mapper:CachedMapper")
+    memo = [c for c in (to, frm) if model.is_subclass(c, cm)]
+    if memo:
+        _cache_key(ctx, model, scope=memo)
+    ctx.ob("S/matchpy/converters-memoize-soundly", True, to.loc(),
+           "converters that memoize: " + (", ".join(c.name for c in memo)
+                                          or "none"))
     _replacement(ctx, model)
 
 
